@@ -125,6 +125,9 @@ structure Sys where
   objs : Tab
   cur : Option Nat
   curInFdt : Bool
+  /-- objects added with `carousel_mode: Some(..)`: they are never "expired" (`FileDesc::is_expired`),
+      `Fdt::transfer_done` re-queues them and their TOI stays reserved until `remove_object` -/
+  carousel : List Nat := []
 
 inductive Op
   /-- `let h = sender.allocate_toi()` -/
@@ -132,10 +135,16 @@ inductive Op
   /-- `drop(h)` (on any thread) -/
   | drop (h : Nat)
   /-- `sender.add_object(prio, obj)` with `obj.config.toi == None`; `ok = false`: `FileDesc::new` refuses
-      the object (too long for the OTI) after the TOI was allocated, the `ObjectDesc` is dropped -/
-  | add (k : Nat) (ok : Bool)
+      the object (too long for the OTI) after the TOI was allocated, the `ObjectDesc` is dropped;
+      `carousel`: the object's `TransferConfig.carousel_mode` is `Some(..)` -/
+  | add (k : Nat) (ok : Bool) (carousel : Bool)
   /-- `obj.set_toi(h); sender.add_object(prio, obj)` -/
   | addWith (k h : Nat) (ok : Bool)
+  /-- `sender.add_object(..)` refused BEFORE any allocation: unknown priority queue (sender.rs), FDT
+      complete, or - since the repair of finding toi-1 - an object carrying a `Toi` handle that was
+      allocated by another sender (`!toi.is_allocated_by(&self.toi_allocator)`, fdt.rs).  The object is
+      dropped; a foreign handle is released in ITS sender's allocator, nothing changes here. -/
+  | addEarlyErr (k : Nat)
   /-- `sender.remove_object(toi_of k)` -/
   | remove (k : Nat)
   /-- publish + trigger + `read` until the first packet of object `k` (a session now holds the FileDesc) -/
@@ -194,7 +203,7 @@ def Sys.step (s : Sys) : Op → Res (Sys × Obs × List Ev)
       | .ok s' => .ok (s', .unit, [.released v])
       | .hang => .hang
       | .panic e => .panic e
-  | .add k ok =>
+  | .add k ok car =>
     match s.objs.find? k with
     | some _ => .ok (s, .bad, [])
     | none =>
@@ -203,7 +212,8 @@ def Sys.step (s : Sys) : Op → Res (Sys × Obs × List Ev)
       | .panic e => .panic e
       | .ok (v, a) =>
         if ok then
-          .ok ({ s with alloc := a, objs := (k, v) :: s.objs }, .toi v, [.allocated v])
+          .ok ({ s with alloc := a, objs := (k, v) :: s.objs,
+                        carousel := if car then k :: s.carousel else s.carousel }, .toi v, [.allocated v])
         else
           match Sys.releaseToi { s with alloc := a } v with
           | .ok s' => .ok (s', .err, [.allocated v, .released v])
@@ -220,6 +230,7 @@ def Sys.step (s : Sys) : Op → Res (Sys × Obs × List Ev)
         | .hang => .hang
         | .panic e => .panic e
     | _, _ => .ok (s, .bad, [])
+  | .addEarlyErr _ => .ok (s, .err, [])
   | .remove k =>
     match s.objs.find? k with
     | none => .ok (s, .bad, [])
@@ -230,7 +241,7 @@ def Sys.step (s : Sys) : Op → Res (Sys × Obs × List Ev)
         else .ok (s, .bool false, [])
       else
         -- `files.remove` + `files_transfer_queue.retain`: last Arc gone, ObjectDesc and its Toi dropped
-        match Sys.releaseToi { s with objs := s.objs.del k } v with
+        match Sys.releaseToi { s with objs := s.objs.del k, carousel := s.carousel.erase k } v with
         | .ok s' => .ok (s', .bool true, [.released v])
         | .hang => .hang
         | .panic e => .panic e
@@ -245,10 +256,21 @@ def Sys.step (s : Sys) : Op → Res (Sys × Obs × List Ev)
       match s.objs.find? k with
       | none => .ok (s, .bad, [])
       | some v =>
-        match Sys.releaseToi { s with objs := s.objs.del k, cur := none, curInFdt := false } v with
+        if s.curInFdt ∧ k ∈ s.carousel then
+          -- `transfer_done`: still in `files` and `!is_expired()`: pushed back to the transfer queue
+          .ok ({ s with cur := none, curInFdt := false }, .done [v], [])
+        else
+        match Sys.releaseToi { s with objs := s.objs.del k, cur := none, curInFdt := false,
+                                      carousel := s.carousel.erase k } v with
         | .ok s' => .ok (s', .done [v], [.released v])
         | .hang => .hang
         | .panic e => .panic e
+
+/-- What `add_object` did BEFORE the repair of finding toi-1 with an object carrying a handle of
+    another sender (value `v`): accepted, the object is live with TOI `v`, this sender's allocator is
+    not touched.  Kept only to state the witness `Props.C15.foreign_unchecked_breaks_uniqueness`. -/
+def Sys.addForeignUnchecked (s : Sys) (k v : Nat) : Sys :=
+  { s with objs := (k, v) :: s.objs }
 
 /-- run a history; the event trace is accumulated in order -/
 def Sys.exec (s : Sys) : List Op → Res (Sys × List Ev)
